@@ -172,3 +172,15 @@ Theorem trace_is_run : forall rnd L ops s k o, nth_error ops k = Some o ->
   Some (snd (step rnd L (run rnd L s (firstn k ops)) o), run rnd L s (firstn (S k) ops)).
 Proof. exact trace_nth. Qed.
 Print Assumptions trace_is_run.
+
+(** the two rounding-parametric statements at the rounding the correspondence driver runs with *)
+Theorem set_time_nearest_float64 : forall L, lsets L <> [] -> forall s t, sorted_le (times L) ->
+  exists s', step round53 L s (SetTime t) = (s', ONone) /\ 0 <= idx s' < nsets L /\
+    nth_error (times L) (Z.to_nat (idx s')) = Some (tm s') /\
+    forall j x, nth_error (times L) j = Some x -> round53 (Z.abs (tm s' - t)) <= round53 (Z.abs (x - t)).
+Proof. exact set_time_nearest_round53. Qed.
+Print Assumptions set_time_nearest_float64.
+Theorem set_time_exact_hit_float64 : forall L s t j, sorted_lt (times L) -> nth_error (times L) j = Some t ->
+  exists s', step round53 L s (SetTime t) = (s', ONone) /\ idx s' = Z.of_nat j.
+Proof. exact set_time_exact_round53. Qed.
+Print Assumptions set_time_exact_hit_float64.
